@@ -104,6 +104,7 @@ type Frame struct {
 	parent    *Frame
 	curBlock  *ssa.BasicBlock
 	curIdx    int
+	caseRecvs []Term
 	inLoopHdr *ssa.BasicBlock
 	loopBody  map[*ssa.BasicBlock]map[*ssa.BasicBlock]bool
 	frameDone bool
@@ -661,6 +662,9 @@ func (fr *Frame) run(st *State) {
 			saveDeclared[k] = true
 		}
 		saveLog := len(e.callLog)
+		// names derived from these counters (range counters, inlined-frame tags) must agree between the
+		// dry pass, which records what each loop modifies, and the real pass
+		saveRng, saveInl := e.rngCtr, e.inlineN
 		saveVals := fr.vals
 		saveClos := fr.closures
 		fr.vals = map[ssa.Value]Term{}
@@ -677,6 +681,7 @@ func (fr *Frame) run(st *State) {
 		fr.rets = nil
 		fr.defers = nil
 		e.callLog = e.callLog[:saveLog]
+		e.rngCtr, e.inlineN = saveRng, saveInl
 		e.vc.asserts = e.vc.asserts[:saveA]
 		// keep declarations made in the dry pass (they are harmless) but restore nothing else
 		_ = saveD
